@@ -278,10 +278,14 @@ package secec
 //@   apply knz2@R: smul_nonzero(0 - val(k), G)
 //@   apply xneg@R: affx_neg(smul(val(k), G))
 //@   apply rpt@R: ptxy_point(smul(val(k), G))
+//@   assert rx@didReduce: lift(val(r)) + ite(didReduce == 1, N, 0) == lift(affx(smul(val(k), G)))
+//@   assert ypar@rYIsOdd: rYIsOdd == lift(affy(smul(val(k), G))) % 2
 //@   fork par@rYIsOdd: rYIsOdd == 0
 //@   fork red@didReduce: didReduce == 0
 //@   fork neg@negateS: negateS == 0
-//@   assert recpt@return: rewrite(ptxy(atom(fp(recx(val(r), recoveryID))), recoveryID % 2), smul(ite(negateS == 0, val(k), 0 - val(k)), G))
+//@   assert recx@return: atom(fp(recx(val(r), recoveryID))) == affx(smul(val(k), G))
+//@   assert recsq@return from(rpt, recx): issq(pow(atom(fp(recx(val(r), recoveryID))), 3) + 7)
+//@   assert recpt@return from(rpt, xneg, ypar, recx, par, red, neg): rewrite(ptxy(atom(fp(recx(val(r), recoveryID))), recoveryID % 2), smul(ite(negateS == 0, val(k), 0 - val(k)), G))
 //@   fresh result0, result1
 //@   modifies rdstate(rand), rdstate(osrand())
 //@
